@@ -682,6 +682,7 @@ func TestC10(t *testing.T) {
 			"oracle: a model ring computed from the configuration only (rows, projection names/types/order, cell values decoded with the reference data codecs, MD5 version-3 host ids, count = row count) and cross-proxy equality of the presented rings with distinct tokens in address order from the minimum token; "+
 			"non-trivial = list with >=2 nodes or a projection that is not *; distinct by case content")
 	defer finish(t, rec)
+	rec.SetJournalAll(true)
 	rec.Assume("only valid configurations (invalid ones are C20's business); no IPv6 zones; IPv4-mapped IPv6 spellings are not generated",
 		"row count of aggregate-only reads and behaviour with WHERE are not asserted (property is silent)")
 	runProp(t, rec, "ring", perShard(evid.Pick(3000, 60000)), func(rt *rapid.T) c10Case {
